@@ -19,6 +19,7 @@ import Knut.Driver.C05
 import Knut.Driver.GoSem
 import Knut.Driver.GoSemTree
 import Knut.Driver.GoSemSyn
+import Knut.Driver.GoSemBayes
 import Knut.Driver.C09Cmd
 import Knut.Driver.C02
 import Knut.Driver.GoSemFmt
@@ -50,6 +51,7 @@ def handlers : List (List String → Option String) := [
   Knut.Driver.GoSem.handle,
   Knut.Driver.GoSemTree.handle,
   Knut.Driver.GoSemSyn.handle,
+  Knut.Driver.GoSemBayes.handle,
   Knut.Driver.C09Cmd.handle,
   Knut.Driver.C02.handle,
   Knut.Driver.GoSemFmt.handle,
